@@ -17,7 +17,9 @@ def main(path):
     case = Case(c.get("case_id") or "replay", c["ops"], c.get("meta"))
     keys = []
     for i in range(2):
-        r = run_batch([case], 20000)[0]
+        from .core import tree
+        with tree((c.get("meta") or {}).get("_tree", "asan")):
+            r = run_batch([case], 20000)[0]
         vs, _ = mod.check(case, r)
         keys.append(sorted(v.key for v in vs))
         print("run %d: %s" % (i + 1, json.dumps(r)[:3000]))
